@@ -2028,8 +2028,11 @@ func authMethodToBitmask(method AuthMethod) int {
 	case AuthSciTokens:
 		return AuthBitmaskSciTokens
 	case AuthIDTokens:
-		// IDTokens not defined in HTCondor's condor_auth.h, map to SciTokens for compatibility
-		return AuthBitmaskSciTokens
+		// IDTOKENS is HTCondor's other name for the TOKEN method: SecMan maps TOKEN,
+		// TOKENS, IDTOKEN and IDTOKENS all to CAUTH_TOKEN. (It used to be mapped to the
+		// SCITOKENS bit here, so a server listing IDTOKENS ran the token exchange while
+		// the client read the same bit back as SCITOKENS: IDTOKENS could never succeed.)
+		return AuthBitmaskToken
 	default:
 		return 0
 	}
@@ -2327,9 +2330,12 @@ func (a *Authenticator) handleClientAuthentication(ctx context.Context, negotiat
 		// whatever single bit comes back would let the peer steer the client into a
 		// method its policy never enabled (e.g. CLAIMTOBE when only FS was listed),
 		// or back into one that already failed and was withdrawn from the bitmask.
+		// Two names can share one bit (TOKEN and IDTOKENS): run the one this client
+		// offered under that bit.
 		offered := false
 		for _, m := range clientMethods {
-			if m == selectedMethod {
+			if authMethodToBitmask(m) == serverResponse {
+				selectedMethod = m
 				offered = true
 				break
 			}
